@@ -235,7 +235,13 @@ impl Envelope {
     pub fn uncompress_subject(&self) -> Result<Self> {
         if self.subject().is_compressed() {
             let subject = self.subject().uncompress()?;
-            Ok(self.replace_subject(subject))
+            // Put the uncompressed subject back in place as it is: re-adding the
+            // assertions to it would merge them into a subject that is itself a
+            // node and change the envelope's digest.
+            match self.case() {
+                EnvelopeCase::Node { assertions, .. } => Ok(Self::new_with_unchecked_assertions(subject, assertions.clone())),
+                _ => Ok(subject),
+            }
         } else {
             Ok(self.clone())
         }
